@@ -2,7 +2,7 @@
    (the sanitizer clause is a supporting runtime test, see DESIGN §7: partial) *)
 From Coq Require Import ZArith List Bool Lia.
 Import ListNotations.
-From XO Require Import Slots Strides BufOps BufOpsProofs Types Format LayoutProofs RoundTrip CExpr CExprProofs CSpec CSpecProofs Address.
+From XO Require Import Slots Strides BufOps BufOpsProofs Types Format LayoutProofs RoundTrip Update UpdateAt CExpr CExprProofs CSpec CSpecProofs Address Setter.
 Open Scope Z_scope.
 
 (* a validated setter stores at exactly the layout's address of the element, for all in-range (and
@@ -27,6 +27,22 @@ Theorem C07_accessor_addresses_element : forall f v img m o ix lt lv ic',
   let addr := o + crun (ld m o) ix (cf_body f) (cf_final f) in
   exists e, enc lt lv = Some e /\ sits e m addr /\ (~ In PRef (cf_path f) -> o <= addr /\ addr + len e <= o + len img).
 Proof. exact accessor_addresses_element. Qed.
+(* THE SETTER, END TO END.  An accepted setter is run with in-range indices on a buffer m holding the
+   documented image of a value v of its type at offset o; the store it performs writes the new scalar bs'
+   at the address it computed.  Then (1) the Python-level assignment of bs' to the element the path denotes
+   is honoured by the model and the element reads back as bs', (2) the buffer afterwards holds the
+   documented image of the value after that assignment, of the same size, at the same offset, and (3) no
+   byte outside the element changed.  (upath_of: the assignment path the accessor path denotes under the
+   index arguments; crun: C semantics of the emitted address arithmetic; wr: the store.) *)
+Theorem C07_setter_is_assignment : forall f v img m o ix k bs bs' ic' up,
+  cfun_ok f = None -> cf_action f = ASet ->
+  nav ix (cf_ty f) v (cf_path f) 0 (TScalar k) (VNum bs) ic' -> upath_of ix (cf_ty f) v (cf_path f) 0 up ->
+  enc (cf_ty f) v = Some img -> sits img m o -> len img < 2^62 -> len bs' = ssize k ->
+  let addr := o + crun (ld m o) ix (cf_body f) (cf_final f) in
+  exists v' img', assign (cf_ty f) v up (VNum bs') = Some v' /\ vget v' up = Some (VNum bs') /\
+    enc (cf_ty f) v' = Some img' /\ len img' = len img /\ sits img' (wr m addr bs') o /\
+    (forall i, 0 <= i -> (i < addr \/ addr + ssize k <= i) -> BufOpsProofs.byte (wr m addr bs') i = BufOpsProofs.byte m i).
+Proof. exact setter_is_assignment. Qed.
 Theorem C07_store_changes_exactly_the_element : forall m off bs, in_range m off (Z.of_nat (length bs)) ->
   length (wr m off bs) = length m /\
   (forall i, 0 <= i -> (i < off \/ off + Z.of_nat (length bs) <= i) -> byte (wr m off bs) i = byte m i) /\
@@ -44,3 +60,4 @@ Print Assumptions C07_store_changes_exactly_the_element.
 Print Assumptions C07_value_read_back.
 Print Assumptions C07_slots_aligned.
 Print Assumptions C07_accessor_addresses_element.
+Print Assumptions C07_setter_is_assignment.
